@@ -139,6 +139,9 @@ fn history(family: &str, seed: u64, idx: usize, thorough: bool, out: &mut impl W
     }
     writeln!(out, "{}", json!({"ev":"history","family":family,"id":format!("{}-{}-{}", family, seed, idx),"clients":nclients,"v6":v6})).unwrap();
 
+    let types: serde_json::Map<String, serde_json::Value> =
+        ALL_TYS.iter().map(|t| (t.name().to_string(), json!(t.type_path()))).collect();
+    c.s.trace.push(json!({"ev":"types","map":types,"registered":PeerCfg::default().registered.iter().map(|t| t.name()).collect::<Vec<_>>()}));
     // marks made before any connection exists
     let pre = if family == "ent" || family == "comp" { c.rng.below(3) } else { 0 };
     for _ in 0..pre {
